@@ -9,11 +9,43 @@ import (
 
 // C01 — RTP packet encode/decode round trip is lossless.
 
+// buildViaAPI builds the packet through the public API only (struct fields with the profile
+// preset, then SetExtension per element); nil when the description has duplicate ids or the API
+// refuses an element (then only the hook can build it).
+func buildViaAPI(in *PacketIn) *rtp.Packet {
+	seen := map[uint8]bool{}
+	for _, e := range in.Exts {
+		if seen[e.ID] {
+			return nil
+		}
+		seen[e.ID] = true
+	}
+	if !in.H.Extension || len(in.Exts) == 0 {
+		return nil
+	}
+	pkt := &rtp.Packet{Header: in.H, Payload: cloneBytes(in.Payload), PaddingSize: in.PadSize}
+	pkt.Header.CSRC = append([]uint32(nil), in.H.CSRC...)
+	pkt.Header.Extensions = nil
+	for _, e := range in.Exts {
+		if err := pkt.Header.SetExtension(e.ID, cloneBytes(e.Payload)); err != nil {
+			return nil
+		}
+	}
+	return pkt
+}
+
 // observeC01 writes: size marshal unFresh unDirty hsize hmarshal hun
 func observeC01(c *Case, in *PacketIn, prev []byte) {
 	writePacketIn(&c.I, in)
 	c.I.Bytes(prev)
 	pkt := in.Build()
+	if c.R.Chance(1, 3) {
+		// the same value reached through the public API instead of the hook
+		if q := buildViaAPI(in); q != nil {
+			pkt = q
+			c.Tag("built=api")
+		}
+	}
 	var size, hsize int
 	var bs, hb []byte
 	var err, herr error
